@@ -184,8 +184,8 @@ SPEC = {
                  'monotone.reported', 'monotone.every-local-step', 'hamiltonian-untouched', 'complete.classE-reaches-ground-state-in-one-sweep',
                  'trace.local-steps-observed'],
     'workloads': [
-        Workload('runs', dmrg_case, quick=260, thorough=8000),
-        Workload('complete', complete_case, quick=len(CASES), thorough=len(CASES) * 6),
+        Workload('runs', dmrg_case, quick=780, thorough=64000),
+        Workload('complete', complete_case, quick=len(CASES), thorough=len(CASES) * 30),
     ],
     'shards': {'quick': 4, 'thorough': 16},
     'watchdog_s': {'quick': 900, 'thorough': 7200},
